@@ -85,6 +85,7 @@ pub fn p_c03_point(depth: u8, lon: f64, lat: f64) {
 #[cfg(not(kani))]
 pub fn p_c03_pullback(depth: u8, x: f64, y: f64) {
   if !(x.is_finite() && y >= -2.0 && y <= 2.0) { return; }
+  if x < 0.0 && x >= -8.0 { let (lon2, lat2) = hp::unproj(x, y); p_c03_point(depth, lon2, lat2); p_c03_point(depth, -0.0, lat2); p_c03_point(depth, -5e-324, lat2); }
   let (lon, lat) = hp::unproj(x.rem_euclid(8.0), y);
   let mut a = -12i64;
   while a <= 12 {
